@@ -820,14 +820,21 @@ class Evolution(pg.DNAGenerator):
           init_population.append((dna, reward))
 
       # Recover `self.num_generations`.
+      # NOTE: the members of the initial population carry generation 1 while
+      # the number of generations stays 0 until the population is initialized.
       generation_id = get_generation_id(dna)
-      if generation_id > self.num_generations:
+      if (not is_initial_population(dna)
+          and generation_id > self.num_generations):
         self._global_state.num_generations = generation_id
 
     # Recover the state of the population initializer.
+    # NOTE: the history may arrive in several `recover` calls: the feedbacks
+    # of all of them count.
     if (self._init_population_size is not None
-        and len(init_population) >= self._init_population_size):
+        and self._num_feedbacks >= self._init_population_size):
       self._population_initialized = True
+      if self.num_generations == 0:
+        self._global_state.num_generations = 1
     self._init_population_generator.recover(init_population)
 
 
